@@ -321,6 +321,11 @@ def conclude(ctx, obs, t0, tgen, tsolve):
             exit_code = 0
         else:
             exit_code = 2
+    for b in ctx.bounded:
+        if b.get('error'):      # a stand-in that crashed says nothing about the property: checker failure, never silence
+            print('STANDIN-ERROR property=%s %s' % (pid, b['error']))
+            if exit_code == 0:
+                exit_code = 3
     for ln in lines:
         print(ln)
     if args.update_baseline:
